@@ -11,7 +11,7 @@ from cxxheaderparser import types as T
 TECHNIQUE = 'Lean 4: contiguity theorems for the value collectors (result = given tokens ++ exactly the tokens taken from the stream, in order; stream left right after them) for every state, kernel-decided slicing flags regenerated from the call sites; stop positions decided by correspondence and an expression-grammar oracle per position'
 LEAN_TARGET = "CxxModel.Props.C14"
 THEOREMS = ["Cxx.C14_balanced_contiguous", "Cxx.C14_value_until_contiguous", "Cxx.C14_value_stops", "Cxx.C14_create_value", "Cxx.C14_inner", "Cxx.C14_value_sites",
-            "Cxx.tokLoop_contiguous", "Cxx.tokLoop_complete", "Cxx.consumeBalanced_region", "Cxx.interp_bind", "Cxx.C14_method_noexcept_value", "Cxx.C14_enumerator_values", "Cxx.C14_variable_initializer", "Cxx.C14_unfused_chars", "Cxx.C14_unfused_none", "Cxx.C14_default_argument"]
+            "Cxx.tokLoop_contiguous", "Cxx.tokLoop_complete", "Cxx.consumeBalanced_region", "Cxx.interp_bind", "Cxx.C14_method_noexcept_value", "Cxx.C14_enumerator_values", "Cxx.C14_variable_initializer", "Cxx.C14_unfused_chars", "Cxx.C14_unfused_none", "Cxx.C14_default_argument", "Cxx.C14_initializer_general", "Cxx.toplevel_variable_init_pre"]
 ANCHORS = ["parser.py:CxxParser._consume_value_until", "parser.py:CxxParser._consume_balanced_tokens", "parser.py:CxxParser._create_value",
            "parser.py:CxxParser._parse_fn_end", "parser.py:CxxParser._parse_method_end", "parser.py:CxxParser._parse_array_type",
            "parser.py:CxxParser._parse_pqname_decltype_specifier", "parser.py:CxxParser._parse_requires", "parser.py:CxxParser._parse_requires_segment",
